@@ -18,6 +18,11 @@ type definition struct { //nolint:maligned для удобочитаемости
 }
 
 func ParseSchema(source string) (*Schema, error) {
+	if source == "" {
+		// the cursor always stands on a rune, it can't walk an empty source
+		return &Schema{TypeComments: make(map[string]string)}, nil
+	}
+
 	cur := NewCursor(source)
 
 	var (
